@@ -40,7 +40,7 @@ EVIDENCE = {
 
 LE_PROCS = ['gatt_read', 'gatt_long_read', 'gatt_write', 'gatt_discover_services', 'gatt_discover_all', 'gatt_subscribe', 'gatt_indicate', 'pair',
             'coc_connect', 'coc_disconnect', 'coc_write_drain', 'connect_le_pending', 'disconnect_pending', 'hci_command', 'eatt_subscribe', 'encrypt',
-            'gatt_notify_then_read', 'remote_features', 'update_parameters_l2cap', 'cis_create', 'cis_disconnect', 'eatt_bearer_close']
+            'gatt_notify_then_read', 'remote_features', 'update_parameters_l2cap', 'cis_create', 'cis_disconnect', 'eatt_bearer_close', 'ecbfc_connect', 'eatt_connect']
 CLASSIC_PROCS = ['classic_connect_pending', 'classic_remote_features', 'classic_remote_name', 'classic_connect', 'classic_disconnect', 'ertm_transfer', 'rfcomm_start', 'rfcomm_open_dlc', 'rfcomm_transfer', 'sdp_query', 'avdtp_discover',
                  'sco_setup', 'sco_disconnect', 'rfcomm_shutdown_drain']
 FAULTS = ['local_disconnect', 'remote_disconnect', 'link_loss_both', 'transport_loss_initiator', 'transport_loss_responder', 'power_off_initiator', 'power_off_responder']
@@ -159,6 +159,14 @@ def _build(sim, case):
         ch = next(c for s in peer.services for c in s.characteristics if c.handle == long_char.handle)
         cccd = next(d for d in ch.descriptors if d.type == gatt.GATT_CLIENT_CHARACTERISTIC_CONFIGURATION_DESCRIPTOR)
         cx.start = lambda: [('eatt.write_value(cccd)', eclient.write_value(cccd.handle, b'\x02\x00', with_response=True))]
+    elif proc == 'ecbfc_connect':
+        spec = l2cap.LeCreditBasedChannelSpec(psm=0x87, mtu=100, mps=40, max_credits=2)
+        d1.create_l2cap_server(spec, handler=lambda ch: None)
+        cx.start = lambda: [('create_enhanced_credit_based_channels', d0.l2cap_channel_manager.create_enhanced_credit_based_channels(c0, spec, 2))]
+    elif proc == 'eatt_connect':
+        from bumble.gatt_client import Client as GattClient
+        d1.gatt_server.register_eatt()
+        cx.start = lambda: [('Client.connect_eatt', GattClient.connect_eatt(c0))]
     elif proc == 'eatt_bearer_close':
         # an enhanced bearer with a subscription is closed (its L2CAP channel only); the connection goes away during or after that
         from bumble.gatt_client import Client as GattClient
@@ -379,7 +387,7 @@ FAMILY = {'gatt_read': 'gatt', 'gatt_long_read': 'gatt', 'gatt_write': 'gatt', '
           'gatt_subscribe': 'gatt-subscribe', 'gatt_indicate': 'gatt-indicate', 'pair': 'pair', 'coc_connect': 'coc', 'coc_disconnect': 'coc', 'coc_write_drain': 'coc',
           'connect_le_pending': 'connect', 'disconnect_pending': 'disconnect', 'hci_command': 'hci', 'classic_connect': 'classic-l2cap',
           'classic_disconnect': 'classic-l2cap', 'ertm_transfer': 'classic-l2cap', 'rfcomm_start': 'rfcomm', 'rfcomm_open_dlc': 'rfcomm', 'rfcomm_transfer': 'rfcomm',
-          'sdp_query': 'sdp', 'avdtp_discover': 'avdtp', 'sco_setup': 'sco', 'sco_disconnect': 'sco', 'cis_create': 'cis', 'cis_disconnect': 'cis', 'rfcomm_shutdown_drain': 'rfcomm', 'eatt_subscribe': 'eatt', 'eatt_bearer_close': 'eatt', 'encrypt': 'pair', 'gatt_notify_then_read': 'gatt',
+          'sdp_query': 'sdp', 'avdtp_discover': 'avdtp', 'sco_setup': 'sco', 'sco_disconnect': 'sco', 'cis_create': 'cis', 'cis_disconnect': 'cis', 'rfcomm_shutdown_drain': 'rfcomm', 'eatt_subscribe': 'eatt', 'eatt_bearer_close': 'eatt', 'ecbfc_connect': 'coc', 'eatt_connect': 'eatt', 'encrypt': 'pair', 'gatt_notify_then_read': 'gatt',
           'remote_features': 'hci', 'classic_remote_features': 'hci', 'classic_connect_pending': 'connect', 'classic_remote_name': 'hci', 
           'update_parameters_l2cap': 'le-signalling'}
 
@@ -682,6 +690,10 @@ def _check_tables(sim, cx, case, handles, unreachable):
             tbl = getattr(mgr, name, None)
             if tbl is not None and tbl.get(h):
                 sim.violation_once(f'stale:{name}', f'stale-state:l2cap.{name}:{fam}:{fc}', f'N{i}: {name}[{h:#x}] = {tbl.get(h)}')
+        # requests in flight that are kept per manager, not per connection: none can be pending now (nothing is in flight at quiescence)
+        pend = getattr(mgr, 'connection_parameters_update_response', None)
+        if pend is not None:
+            sim.violation_once('stale:param-update', f'stale-state:l2cap.connection_parameters_update_response:{fam}:{fc}', f'N{i}: the request of the dead connection is still registered ({"done" if pend.done() else "pending"}): the next update will be refused')
         if any(key[0] == h for key in getattr(mgr, 'le_coc_requests', {})):
             sim.violation_once('stale:le_coc_requests', f'stale-state:l2cap.le_coc_requests:{fam}:{fc}', f'N{i}')
         for qn in ('acl_packet_queue', 'le_acl_packet_queue'):
